@@ -5,7 +5,7 @@
    names, types, scopes and keys are universally quantified with no bound.
    history_wf = the configured stale window (initially and after every reload) is not negative. *)
 From Coq Require Import List ZArith NArith Bool.
-From Dae Require Import C08_Spec C08_Model C08_Proofs C08_Ttl C08_Lru C08_LruStore C08_Keys.
+From Dae Require Import C08_Spec C08_Model C08_Proofs C08_Ttl C08_Lru C08_LruStore C08_Keys C08_RefreshProofs.
 Import ListNotations.
 Open Scope Z_scope.
 
@@ -62,6 +62,27 @@ Theorem C08_single_refresh :
     snd (m_lookup (fst (m_run_from u (fst (m_lookup s now1 key)) h)) now2 key) <> ObLook true ans2 ttl2 true.
 Proof. exact single_refresh_proof. Qed.
 Print Assumptions C08_single_refresh.
+
+(* The same clause at the granularity of the atomic operations on DnsCache.refreshing, over ALL interleavings:
+   any number of threads - lookups of one stale entry that reached the claim (one CompareAndSwap, as written)
+   and completions of background refreshes (Load, then Store false) - started in any mix, scheduled in any
+   order (sched = which thread performs its next atomic operation; arbitrary, unbounded).  Never are two
+   lookups told to refresh without a completion clearing the flag in between.  open0 says whether a refresh
+   was already claimed before the schedule starts (then the flag is set). *)
+Theorem C08_single_refresh_atomic :
+  forall (flag0 open0 : bool) (threads : list rpc) (sched : list nat),
+    forallb rpc_start threads = true -> (open0 = true -> flag0 = true) ->
+    one_claim_per_cycle open0 (snd (rrun VCas {| r_flag := flag0; r_pcs := threads |} sched)) = true.
+Proof. exact single_refresh_atomic_proof. Qed.
+Print Assumptions C08_single_refresh_atomic.
+
+(* A claim written as test-then-set (Load, then Store true) does NOT have the property: two lookups, schedule
+   Load1 Load2 Store1 Store2, are both told to refresh.  (Not the code; the model variant exists so that a
+   source of that shape is still followed step by step - and reported.) *)
+Theorem C08_single_refresh_loadstore_refuted :
+  one_claim_per_cycle false (snd (rrun VLoadStore {| r_flag := false; r_pcs := [LStart; LStart] |} [0; 1; 0; 1]%nat)) = false.
+Proof. exact loadstore_refuted_proof. Qed.
+Print Assumptions C08_single_refresh_loadstore_refuted.
 
 (* TTL truthfulness of the in-place fill: the shown TTL never exceeds max 1 (floor remaining) + slack. *)
 Theorem C08_fill_ttl_truthful : forall d now, now < d -> ttl_ok d now (ttl_from_deadline d now) = true.
